@@ -419,10 +419,12 @@ class SInt(Sym):
             if c == 0:
                 return SInt(z3.IntVal(0))
             if c > 0 and (c & (c + 1)) == 0:           # 2^k - 1 : x mod 2^k, any sign
-                r = _mod_pow2(self.t, c.bit_length())
-                if _bv_of_bv2int(r) is not None:
-                    return SInt(r)
-                return SInt(z3.simplify(r))
+                if _mentions_bv2int(self.t):
+                    r = _mod_pow2(self.t, c.bit_length())
+                    if _bv_of_bv2int(r) is not None:
+                        return SInt(r)
+                    return SInt(z3.simplify(r))
+                return SInt(self.t % z3.IntVal(c + 1))      # pure Int terms keep the canonical (t mod 2^k) shape
             if c > 0:
                 # general non-negative constant mask: sum of selected bits
                 r = z3.IntVal(0)
@@ -1187,6 +1189,24 @@ def _mod_pow2(t, k):
     except Exception:
         pass
     return t % z3.IntVal(m)
+
+
+def _mentions_bv2int(t, budget=400):
+    """Does the Int term contain a bv2int leaf (bounded traversal; False when the budget runs out)?"""
+    todo, seen = [t], 0
+    try:
+        while todo:
+            x = todo.pop()
+            seen += 1
+            if seen > budget:
+                return False
+            if z3.is_app(x):
+                if x.decl().kind() == z3.Z3_OP_BV2INT:
+                    return True
+                todo.extend(x.children())
+    except Exception:
+        return False
+    return False
 
 
 def _bv_of_bv2int(t):
